@@ -198,6 +198,7 @@ func runC16(r resIface, c *c16case, rng *prng.R, scratch string) {
 		s.srv.Password = c16srcPw
 		s.srv.DumpVersion = 9
 		byDB := map[int][]string{}
+		var keepers []string // keys added by the harness; a key-file source must list them too
 		var vanishBeforePTTL []c16key
 		for i := range s.Keys {
 			k := &s.Keys[i]
@@ -232,6 +233,7 @@ func runC16(r resIface, c *c16case, rng *prng.R, scratch string) {
 				keeper := fmt.Sprintf("ks%d-keeper-db%d", s.ID, db)
 				s.srv.Put(db, keeper, &rdbgen.Value{Kind: "string", Str: []byte("x")}, 0)
 				keys = append(keys, keeper)
+				keepers = append(keepers, keeper)
 				if !ref.DBExcluded(db) && !ref.KeyExcluded([]byte(keeper)) {
 					tdb := db
 					if c.TargetDB != -1 {
@@ -264,6 +266,7 @@ func runC16(r resIface, c *c16case, rng *prng.R, scratch string) {
 			for _, k := range s.Keys {
 				lines = append(lines, k.Key)
 			}
+			lines = append(lines, keepers...)
 			lines = append(lines, "listed-but-nonexistent")
 			keyFilePath = filepath.Join(scratch, fmt.Sprintf("c16-keys-%d.txt", c.Index))
 			ioutil.WriteFile(keyFilePath, []byte(strings.Join(lines, "\n")+"\n"), 0644)
